@@ -134,6 +134,7 @@ class World:
         self.zarr = stores.StubZarrGroup()
         self.nsteps = 0
         self.userrefs = []            # C16: user-held containers: dict(obj=<python obj>, ...)
+        self.order_taint = set()      # rids whose dict key order is unspecified (a bulk update/reset happened, C03)
         thr = cfg.get("threading")
         if thr is not None:
             for fam in self.ns.json_families:
@@ -509,6 +510,8 @@ class World:
             mres = M.Raised(AttributeError(str(mres.exc)))  # attribute syntax: missing key -> AttributeError (C18)
         # (del obj.missing: the statement is ambiguous - "exactly like del obj['k']" (KeyError) vs "missing key ->
         #  AttributeError"; the pinned tree raises KeyError, which is accepted; see DESIGN §7)
+        if name in ("update", "update_pairs", "update_kwargs", "reset"):
+            self.order_taint.add(ob.rid)
         pre = self.pre_op(r, ob, h, name, mut, buffered)
         if st.get("fault") is not None:
             return self.faulted_op(st, r, ob, h, name, args, trial, mres)
@@ -536,6 +539,11 @@ class World:
             k = lres[0] if isinstance(lres, list) and len(lres) == 2 else None
             if k is None or k not in target:
                 raise Violation("result!=model", f"popitem returned {lres!r}, not an item of {target!r}", step=st)
+            if "popitem_lifo" in self.oracles and ob.rid not in self.order_taint and k != list(target)[-1]:
+                # C03: the only documented ordering deviation is "after bulk updates"; with keys inserted one by one the
+                # order is specified and dict.popitem() removes the LAST inserted item
+                raise Violation("result!=model", f"popitem returned {lres!r} but the built-in dict.popitem() removes the last "
+                                f"inserted item {list(target)[-1]!r} of {target!r} (no bulk update/reset happened on this resource)", step=st)
             mres = [k, target.pop(k)]
 
         if "result" in self.oracles or ("read_result" in self.oracles and not mut):
